@@ -384,8 +384,7 @@ def _ts_methods():
        Slot(lambda o: None, lambda o: [(v, None) for v in [-2, -1, 0, 1, 2 ** 31, None, "a"]], "max_mutations"), FLOATANY])
     C("LdCalculator.r2_matrix", "ts", lambda ts, a: tskit.LdCalculator(ts).r2_matrix(), [])
     C("TreeSequence.kc_distance", "ts", lambda ts, a: ts.kc_distance(ts, a[0]), [FLOATANY])
-    C("TreeSequence.count_topologies", "ts", lambda ts, a: [c[0] for c in ts.count_topologies(sample_sets=a[0])],
-      [Slot(SAMPLE_SETS.valid, lambda o: [(v, None if (m and v in ([[-1]], [[-2]])) else m) for v, m in _sample_sets_adv(o)], "sample-sets(py-index)")])
+    C("TreeSequence.count_topologies", "ts", lambda ts, a: [c[0] for c in ts.count_topologies(sample_sets=a[0])], [SAMPLE_SETS])
     C("TreeSequence.impute_unknown_mutations_time", "ts", lambda ts, a: ts.impute_unknown_mutations_time(method=a[0]),
       [Slot(lambda o: None, lambda o: [(v, None) for v in ["min", "junk", 3]], "method")])
     C("TreeSequence.edge_diffs", "ts", lambda ts, a: list(ts.edge_diffs(include_terminal=a[0], direction=a[1])),
